@@ -64,6 +64,9 @@ func (v DenseInt64Vector) AT(i int) Int64 {
   return Int64{&v[i]}
 }
 func (v DenseInt64Vector) APPEND(w DenseInt64Vector) DenseInt64Vector {
+  // v might be a slice of a longer vector, do not
+  // overwrite the elements behind it
+  v = v[:len(v):len(v)]
   return append(v, w...)
 }
 func (v DenseInt64Vector) ToDenseInt64Matrix(n, m int) *DenseInt64Matrix {
@@ -114,12 +117,18 @@ func (v DenseInt64Vector) Swap(i, j int) {
   v[i], v[j] = v[j], v[i]
 }
 func (v DenseInt64Vector) AppendScalar(scalars ...Scalar) Vector {
+  // v might be a slice of a longer vector, do not
+  // overwrite the elements behind it
+  v = v[:len(v):len(v)]
   for _, scalar := range scalars {
     v = append(v, scalar.GetInt64())
   }
   return v
 }
 func (v DenseInt64Vector) AppendVector(w Vector) Vector {
+  // v might be a slice of a longer vector, do not
+  // overwrite the elements behind it
+  v = v[:len(v):len(v)]
   for i := 0; i < w.Dim(); i++ {
     v = append(v, w.ConstAt(i).GetInt64())
   }
